@@ -499,9 +499,9 @@ pub fn check<P: Property>(p: &P, ctx: &Ctx, workers: u64, verif_dir: &Path, extr
                     minimise(p, ctx, scn.clone(), &cv, 4000)
                 };
                 let path = write_replay(p, ctx, &min_scn, &min_v, Some(*idx), steps, &verif_dir.join("replays"));
-                println!("violation kind={} site={} run={} seed={}", min_v.kind, min_v.site, idx, ctx.verif_seed);
-                println!("  {}", min_v.message.replace('\n', "\n  "));
-                println!("VIOLATION property={} replay={}", p.id(), path.display());
+                crate::say!("violation kind={} site={} run={} seed={}", min_v.kind, min_v.site, idx, ctx.verif_seed);
+                crate::say!("  {}", min_v.message.replace('\n', "\n  "));
+                crate::say!("VIOLATION property={} replay={}", p.id(), path.display());
                 violations = 1;
                 exit_code = 1;
                 violation_json = json!({"kind": min_v.kind, "site": min_v.site, "message": min_v.message, "run_index": idx,
@@ -552,7 +552,7 @@ pub fn check<P: Property>(p: &P, ctx: &Ctx, workers: u64, verif_dir: &Path, extr
     let ev_dir = verif_dir.join("evidence");
     let _ = std::fs::create_dir_all(&ev_dir);
     std::fs::write(ev_dir.join(format!("{}.json", p.id())), serde_json::to_string_pretty(&evidence).unwrap()).expect("write evidence");
-    println!(
+    crate::say!(
         "{} tier={} seed={} runs={} nontrivial_distinct={} order_sigs={} wall={:.1}s digest={:016x} -> {}",
         p.id(),
         ctx.tier.name(),
@@ -630,15 +630,15 @@ pub fn replay<P: Property>(p: &P, ctx: &Ctx, file: &Path, raw: bool) -> i32 {
     match ex.violation {
         Some(v) => {
             if !raw {
-                println!("violation kind={} site={}", v.kind, v.site);
-                println!("  {}", v.message.replace('\n', "\n  "));
-                println!("VIOLATION property={} replay={}", p.id(), file.display());
+                crate::say!("violation kind={} site={}", v.kind, v.site);
+                crate::say!("  {}", v.message.replace('\n', "\n  "));
+                crate::say!("VIOLATION property={} replay={}", p.id(), file.display());
             }
             1
         }
         None => {
             if !raw {
-                println!("replay of {} no longer violates {} (fingerprint {:016x})", file.display(), p.id(), ex.fingerprint);
+                crate::say!("replay of {} no longer violates {} (fingerprint {:016x})", file.display(), p.id(), ex.fingerprint);
             }
             0
         }
